@@ -4,6 +4,7 @@ The primitives (gamma cdf, negative-binomial pmf, exp, Poisson, binomial) are nu
 combines them: parameter conversions, discretisation/censoring, logit order, product form, initial values.
 -/
 import MdpaxV.Props.C13
+import MdpaxV.Theory.Hendrix
 import MdpaxV.Model.Backup
 import Mathlib.Tactic.FieldSimp
 import Mathlib.Tactic.Positivity
@@ -102,5 +103,77 @@ theorem hendrix_initial_value (probs revenues : List α) (h : probs.length = rev
 theorem forest_table (c : ForestCfg α) (s : List Int) :
     forestProb c s [0] [0] = 1 - c.p ∧ forestProb c s [0] [1] = c.p ∧ forestProb c s [1] [0] = 1 ∧ forestProb c s [1] [1] = 0 := by
   simp [forestProb]
+
+/-! ### Hendrix: the implementation's four masked arrays are the documented joint law -/
+section HendrixLaw
+open MdpaxV.Hendrix Finset
+/-- **the four masked arrays add up to the documented joint law**: for all stock totals (x, y) and every cell (ia, ib) the
+    implementation's probability equals the enumeration over demands and substitution (inside the truncation region) -/
+theorem hendrix_cell_is_joint_law (t : HendrixTab α) (x y ia ib : Nat) (hx : x ≤ t.D) :
+    hendrixCell t x y ia ib = hendrixSpecCell t x y ia ib := by
+  unfold hendrixCell hendrixSpecCell hendrixP1 hendrixP2 hendrixP3 hendrixP4
+  rcases lt_trichotomy ib y with hlt | heq | hgt
+  · have hne : ib ≠ y := by omega
+    simp only [hlt, hne, if_true, if_false, and_false, add_zero]
+    rcases lt_trichotomy ia x with h1 | h1 | h1
+    · have : ia ≠ x := by omega
+      simp only [h1, this, if_true, if_false, add_zero]; ring
+    · subst h1; simp only [lt_irrefl, if_true, if_false, zero_mul, zero_add]; ring
+    · have h2 : ¬ ia < x := by omega
+      have h3 : ia ≠ x := by omega
+      simp only [h2, h3, if_false, zero_mul, add_zero, mul_zero]
+  · subst heq
+    simp only [lt_irrefl, if_false, mul_zero, ite_self, and_true, if_true, zero_add]
+    -- the triple sum as a weighting of pz
+    have hspec : lsum ((List.range (t.D - ib)).map fun e => lsum ((List.range (e + 1)).map fun u =>
+          lsum ((List.range (t.D - u + 1)).map fun dA =>
+            if min (dA + u) x = ia then t.pa dA * t.pb (e + ib) * binomPmf t.rho e u else 0)))
+        = ∑ z ∈ range (t.D + 1), (if min z x = ia then (1 : α) else 0) * hendrixPz t z ib := by
+      rw [pz_sum, lsum_range]
+      apply Finset.sum_congr rfl; intro e _
+      rw [lsum_range]
+      apply Finset.sum_congr rfl; intro u _
+      rw [lsum_range]
+      apply Finset.sum_congr rfl; intro dA _
+      split <;> simp
+    rw [hspec]
+    rcases lt_trichotomy ia x with h1 | h1 | h1
+    · have h3 : ia ≠ x := by omega
+      simp only [h1, h3, if_true, if_false, add_zero]
+      rw [Finset.sum_eq_single ia]
+      · simp [Nat.min_eq_left (le_of_lt h1)]
+      · intro z _ hz
+        have : min z x ≠ ia := by
+          intro h; rcases Nat.le_total z x with h' | h'
+          · rw [Nat.min_eq_left h'] at h; exact hz h
+          · rw [Nat.min_eq_right h'] at h; omega
+        simp [this]
+      · intro h; exfalso; apply h; simp; omega
+    · subst h1
+      simp only [lt_irrefl, if_false, if_true, zero_add]
+      rw [lsum_range]
+      apply Finset.sum_congr rfl; intro z _
+      by_cases hz : ia ≤ z
+      · simp [hz, Nat.min_eq_right hz]
+      · have : min z ia ≠ ia := by rw [Nat.min_eq_left (by omega)]; omega
+        simp [hz, this]
+    · have h2 : ¬ ia < x := by omega
+      have h3 : ia ≠ x := by omega
+      simp only [h2, h3, if_false, add_zero]
+      symm
+      apply Finset.sum_eq_zero
+      intro z _
+      have : min z x ≠ ia := by have := Nat.min_le_right z x; omega
+      simp [this]
+  · have hne : ib ≠ y := by omega
+    have hnl : ¬ ib < y := by omega
+    simp [hne, hnl]
+
+
+/-- non-vacuity: a concrete table (D = 3, stocks up to 2/1, ρ = 1/2) — the cell formula and the enumeration agree and are non-zero -/
+example : hendrixCell (⟨3, 2, 1, fun n => [(1/2 : Rat), 1/4, 1/8, 1/16].getD n 0, fun n => [(1/2 : Rat), 1/4, 1/8, 1/16].getD n 0, fun _ => 1/2, 1/2⟩ : HendrixTab Rat) 1 1 1 1 = 49/256 ∧
+    hendrixSpecCell (⟨3, 2, 1, fun n => [(1/2 : Rat), 1/4, 1/8, 1/16].getD n 0, fun n => [(1/2 : Rat), 1/4, 1/8, 1/16].getD n 0, fun _ => 1/2, 1/2⟩ : HendrixTab Rat) 1 1 1 1 = 49/256 := by
+  constructor <;> decide +kernel
+end HendrixLaw
 
 end MdpaxV.C16
